@@ -267,6 +267,10 @@ declare("ZDeep", ["A [][]map[string][2]*int16", "B map[ZKey][]any", "C *[]*strin
 declare("ZDash", ["A int `json:\"-\"`", "B int `json:\"-,\"`", "C int `json:\",omitempty\"`", "D int `json:\"d,omitzero\"`", "e int", "F int `json:\"f,\"`"], "plain")
 declare("ZEmpty", [], "plain")
 declare("ZTwice", ["A ZP1", "B ZP1", "C []ZP1", "D *ZP1"], "plain")   # a type occurring several times
+# named scalars reached through pointers several times (TypeSchemas entries get "null" added at each occurrence)
+declare("ZPtrs1", ["A *ZI8", "B *ZI8", "C []*ZStr", "D map[string]*ZStr", "E *ZU16"], "plain")
+declare("ZPtrs2", ["P *ZStr `json:\"p\"`", "Q **ZStr `json:\"q,omitempty\"`", "R *ZI", "S []*ZI"], "plain")
+declare("ZPtrs3", ["ZPtrs1", "X *ZU16", "Y *ZB", "Z *ZF"], "plain")
 
 src = ["// Code generated by tools/gen_zoo.py; DO NOT EDIT.", "", "package main", "", "import (", '\t"log/slog"', '\t"math/big"', '\t"reflect"', '\t"time"', ")", "",
        "var _ = slog.LevelInfo", "var _ big.Int", "var _ time.Time", ""]
